@@ -24,16 +24,22 @@ def decode(p):
 def post(ctx, cases, gores, model):
     """a file outside the root came back: a violation whatever the model says"""
     n = 0
+    by_file = {}
     for i in sorted(cases, key=lambda i: (len(cases[i]), i)):
         g = gores.get(i, "")
         if cases[i][0] in "RI" and any(x.startswith("O") for x in g.split(",")):
             n += 1
+            for x in g.split(","):
+                if x.startswith("O"):
+                    by_file[x] = by_file.get(x, 0) + 1
             if n <= 2:
                 rp = checklib.write_replay(ctx, "input", {"payload": cases[i], "readable": decode(cases[i])},
                                            "no O<n> entry (resolve_confined)", g,
                                            f"./check {ctx.prop} --replay <this file>", tag="outside")
                 checklib.violation(ctx, rp, f"content of a file OUTSIDE the root returned: go={g[:80]!r}")
     ctx.coverage["outside_results"] = n
+    if by_file:
+        ctx.coverage["outside_by_file"] = by_file
     ctx.coverage["paths_resolved"] = sum(len(g.split(",")) for i, g in gores.items() if cases.get(i, " ")[0] in "RI")
     ctx.coverage["files_opened_inside"] = sum(sum(1 for x in g.split(",") if x.startswith("I"))
                                               for i, g in gores.items() if cases.get(i, " ")[0] in "RI")
@@ -42,7 +48,7 @@ def post(ctx, cases, gores, model):
 SPEC = dict(
     lean_modules=["Ecal.Props.C17"],
     shards=16,
-    rule=("cases: (a) P lines = pairs of strings (all pairs of strings of <=3 (quick) / <=4 (thorough) elements over "
+    rule=("cases: (a) P lines = pairs of strings (all pairs (a,b) of strings of <=3 (quick; thorough: a <=4, b <=3) elements over "
           "{a,b,.,..,''} joined by '/', plus random byte strings) through filepath.Clean/Join/Rel vs. the model's; "
           "(b) R lines = FileImportLocator.Resolve in a real directory tree with sentinel files inside and outside the root "
           "(sibling with the root's name as prefix, parent, grandparent, another absolute location), 18 root spellings "
